@@ -8,6 +8,7 @@ from .. import monitors
 from ..ref import ws as refws
 
 LEVEL = 'exploration'
+TECHNIQUE = 'online trace monitor (event-grammar automaton + bounded-termination rule) over bounded-exhaustive histories on a virtual clock'
 BUDGET_S = {'quick': 35, 'thorough': 280}
 REQUIRED = {'all': ['oracle.grammar_checked', 'oracle.terminated_runs', 'oracle.connect_phase_runs']}
 RULE = ('bounded-exhaustive histories: handshake variant x every sequence of <= D server steps from a 17-step '
